@@ -32,7 +32,9 @@ def compile_objects(objs, options: dict | None = None, prefix: str = "vf", objec
     logging.getLogger("ffcx").setLevel(logging.ERROR)
     try:
         code, sfx = ffcx.compiler.compile_ufl_objects(list(objs), options=opts, object_names=object_names or {}, namespace=prefix)
-    except Exception as e:
+    except (KeyboardInterrupt, SystemExit):
+        raise
+    except BaseException as e:  # UFL's ArityMismatch derives from BaseException
         raise Rejected(f"{type(e).__name__}: {str(e)[:200]}") from e
     return code, sfx
 
